@@ -21,12 +21,29 @@ def expected_int(v, signed, bits):
     return 0
 
 def nearest_f32(x):
+    """the binary32 value nearest to x (ties to even), computed exactly from the rational value — never through a
+    double, which would round twice"""
     if isinstance(x, float):
-        return x
-    try:
-        return struct.unpack(">f", struct.pack(">f", float(x)))[0]
-    except OverflowError:
-        return math.inf if x > 0 else -math.inf
+        if math.isnan(x) or math.isinf(x):
+            return x
+    q = Fraction(x)
+    if q == 0:
+        return 0.0 if not (isinstance(x, float) and math.copysign(1.0, x) < 0) else -0.0
+    sign = -1 if q < 0 else 1
+    a = abs(q)
+    e = a.numerator.bit_length() - a.denominator.bit_length()
+    if Fraction(2) ** e > a:
+        e -= 1                                  # 2^e <= a < 2^(e+1)
+    qexp = max(e, -126) - 23                    # exponent of the last mantissa bit (subnormals share -149)
+    scaled = a / Fraction(2) ** qexp
+    m = scaled.numerator // scaled.denominator
+    rem = scaled - m
+    if rem > Fraction(1, 2) or (rem == Fraction(1, 2) and m % 2 == 1):
+        m += 1
+    val = Fraction(m) * Fraction(2) ** qexp
+    if val >= Fraction(2) ** 128:
+        return sign * math.inf
+    return sign * float(val)                    # exactly representable, so float() is exact
 
 def values(rnd, n, thorough):
     out = []
@@ -54,6 +71,24 @@ def values(rnd, n, thorough):
                     out.append(("F", (fb - 1) & 0xffffffff))
                 except OverflowError:
                     pass
+    # integers just beside a float midpoint (and a double midpoint): converting through a wider format first (double
+    # rounding), or truncating instead of rounding, gives a neighbour of the nearest value
+    for e in range(25, 64):
+        for _ in range(6):
+            j = rnd.randrange(0, 1 << 22)
+            mid = ((1 << 24) + 2 * j + 1) << (e - 24)          # exactly between two adjacent floats
+            for z in (mid + 1, mid - 1, mid, mid + (1 << max(0, e - 54)), mid - (1 << max(0, e - 54))):
+                for sgn in (1, -1):
+                    if -2 ** 63 <= sgn * z < 2 ** 64:
+                        out.append(("i", sgn * z))
+    for e in range(54, 64):
+        for _ in range(6):
+            j = rnd.randrange(0, 1 << 51)
+            mid = ((1 << 53) + 2 * j + 1) << (e - 53)          # exactly between two adjacent doubles
+            for z in (mid + 1, mid - 1, mid):
+                for sgn in (1, -1):
+                    if -2 ** 63 <= sgn * z < 2 ** 64:
+                        out.append(("i", sgn * z))
     while len(out) < n:
         k = rnd.random()
         if k < 0.3:
